@@ -3,7 +3,7 @@
     implementation's outcome / messages / post-state as literals; [check_step] runs the model's
     [step] from the *implementation's* pre-state and compares, component by component.  The
     per-property projections of DESIGN.md §4.2 are unions of these components (tools/props.py). *)
-From FM Require Export World Totals.
+From FM Require Export World Totals Reentry.
 
 (** ** Observations *)
 Record cfgT := mkCfg {
@@ -136,9 +136,9 @@ Definition bit (i : N) (mismatch : bool) : N := if mismatch then 2 ^ i else 0.
 Definition all_pairs (xs ys : list N) : list (N * N) :=
   flat_map (fun x => map (fun y => (x, y)) ys) xs.
 
-Definition check_step (c : cfgT) (pre : obs) (o : op) (ok_o : bool) (msgs_o : list out_msg) (post : obs) : N :=
+Definition check_step_with (stepf : world -> world * outcome) (c : cfgT) (pre : obs) (ok_o : bool) (msgs_o : list out_msg) (post : obs) : N :=
   let w := abs c pre in
-  let '(w', out) := step w o in
+  let '(w', out) := stepf w in
   let p := abs c post in
   let s' := market w' in
   let sp := market p in
@@ -183,6 +183,14 @@ Definition check_step (c : cfgT) (pre : obs) (o : op) (ok_o : bool) (msgs_o : li
                   && entries_eqb (fun a b => gbal_eqb (funds a) (funds b)) (buckets s') (buckets sp)))
   + bit 19 (negb ((wnow w' =? wnow p) && (height w' =? height p) && Bool.eqb (hostile_fail w') (hostile_fail p)
                   && forallb (fun a => opt_eqb (admin w' a) (admin p a)) (c_addrs c))).
+
+Definition check_step (c : cfgT) (pre : obs) (o : op) (ok_o : bool) (msgs_o : list out_msg) (post : obs) : N :=
+  check_step_with (fun w => step w o) c pre ok_o msgs_o post.
+
+(** The same comparison for a transaction during which a hostile token re-enters the marketplace
+    with the program [prog] (model/Reentry.v). *)
+Definition check_rstep (c : cfgT) (pre : obs) (o : op) (prog : list op) (ok_o : bool) (msgs_o : list out_msg) (post : obs) : N :=
+  check_step_with (fun w => rstep w o prog) c pre ok_o msgs_o post.
 
 (** ** Queries *)
 Definition res_eqb {A} (eqb : A -> A -> bool) (a b : result A) : bool :=
